@@ -468,6 +468,7 @@ class ConditionLike:
                     spec_val = valida.datapath.DataPath.from_spec(spec_val)
                 except MalformedDataPathSpec:
                     # Check values for DataPath specs:
+                    spec_val = dict(spec_val)
                     for k, v in spec_val.items():
                         try:
                             spec_val[k] = valida.datapath.DataPath.from_spec(v)
@@ -475,11 +476,13 @@ class ConditionLike:
                             pass
             elif isinstance(spec_val, (list, tuple)):
                 # Check items for DataPath specs:
-                for idx, v in enumerate(spec_val):
+                items = list(spec_val)
+                for idx, v in enumerate(items):
                     try:
-                        spec_val[idx] = valida.datapath.DataPath.from_spec(v)
+                        items[idx] = valida.datapath.DataPath.from_spec(v)
                     except MalformedDataPathSpec:
                         pass
+                spec_val = type(spec_val)(items)
 
             # invoke the condition method to construct the Condition object:
 
